@@ -246,6 +246,31 @@ def run(ctx, out, tier):
                      "the line-count violation push is not control-dependent on the result of the operator comparison")
     out.inst("C09.violate", ok_n, 1, ["push@%s" % ctx.where(vb, t["span"]) for bi, t in pushes])
 
+    # ---------------------------------------------------------------- C09.noskip
+    # a block that carries the attribute is always compared: from the point where the attribute was found,
+    # the next block is reached only through the operator comparison or not at all (error). In
+    # particular an empty block is not skipped - it counts zero lines.
+    n_ns = 0
+    bl = [(h, b2) for h, b2, kind in shared.outer_block_loops(ctx, vb) if kind == "blocks"]
+    gets = [(bi, t) for bi, t in vb.calls() if callee_matches(t, r"HashMap::<K, V, S, A>::get$") and len(t["args"]) > 1 and util.const_val(ctx, vb, t["args"][1]) == name]
+    if len(bl) == 1 and gets and sw_bb is not None:
+        h, lblocks = bl[0]
+        gbi, gt = gets[0]
+        succ = cfg.succ[gbi]
+        some = None
+        if succ and vb.blocks[succ[0]]["term"] and vb.blocks[succ[0]]["term"]["k"] == "switch":
+            some = util.switch_arms(vb, succ[0]).get(1)
+        if some is not None:
+            eb = shared._err_blocks(vb)
+            cmp_blocks = {sw_bb} | {c[3] for c in cmp_tab.values() if isinstance(c[3], int)}
+            r = cfg.reach(some, avoid=cmp_blocks | eb | (set(range(cfg.n)) - set(lblocks) - {h}))
+            if h in r:
+                out.viol("C09.noskip", "C09.noskip|skip", ctx.where(vb, gt["span"]),
+                         "a block carrying `line-count` can go on to the next block without its count being compared with the bound (e.g. an early `continue` for empty content): an empty block counts zero lines and must still be reported for `>=1`, `==2`, `>0`")
+            else:
+                n_ns += 1
+    out.inst("C09.noskip", n_ns, 1, ["attribute present -> comparison (or error) before the next block"])
+
     # ---------------------------------------------------------------- C09.count
     n_cnt = 0
     cs = []
@@ -376,6 +401,8 @@ def run(ctx, out, tier):
     else:
         out.inst("C09.detect", 0, 4)
     shared.sh_flags(ctx, out, "line-count", "C09.flags")
+    from rules.C03 import check_sametext
+    check_sametext(ctx, out, rule="C09.sametext")
     return meta()
 
 
